@@ -400,8 +400,33 @@ def judge_program(case, ans):
     return None
 
 
+FIXED_PROGRAM_CASES = [
+    ("neg", 1 << 63, None), ("neg", I64MIN, None), ("neg", (1 << 63) + 1, None), ("not", 1 << 63, None), ("not", -1, None),
+    ("div", -5, 10), ("div", 3, -7), ("div", -7, 10 ** 30), ("div", -(1 << 64), 3), ("div", I64MIN, -1), ("div", 7, 0),
+    ("mod", -7, 10 ** 30), ("mod", I64MIN, 1 << 63), ("mod", -(1 << 64) - 1, 10), ("mod", 7, -3), ("mod", 1, 0),
+    ("shl", 1, 64), ("shl", 1, 63), ("shl", -1, 63), ("shl", -1, 64), ("shl", 0, 64), ("shl", 1 << 65, -1), ("shl", 5, -1),
+    ("shr", 1 << 65, 1), ("shr", -(1 << 65) - 1, 1), ("shr", 5, -62), ("shr", -1, 200),
+    ("add", I64MAX, 1), ("add", I64MIN, -1), ("add", 1 << 63, -1), ("add", 5, 0), ("sub", I64MIN, 1), ("sub", 0, I64MIN),
+    ("sub", 1 << 63, 1), ("mul", 3037000500, 3037000500), ("mul", I64MIN, -1), ("mul", 1 << 32, -(1 << 31)), ("mul", 1 << 64, 0),
+    ("pow", 2, 64), ("pow", -2, 63), ("pow", 3, 0), ("and", -1, (1 << 64) + 5), ("or", 1 << 64, -(1 << 64)),
+    ("xor", (1 << 64) + 1, 1 << 64), ("andnot", (1 << 65) + 1, 1), ("andnot", (1 << 65) + 1, 1 << 65),
+    ("cmp", 5, 1 << 64), ("lt", -(1 << 63) - 1, I64MIN), ("ge", 1 << 63, I64MAX), ("eq", 1 << 63, 1 << 63), ("le", -1, -(1 << 70)),
+]
+
+
+def fixed_program_cases():
+    out = []
+    for route in ("folded", "typed", "any"):
+        for op, x, y in FIXED_PROGRAM_CASES:
+            r = route
+            if r == "any" and op not in GENERIC_OPS and op not in GENERIC_SHIFT:
+                continue
+            out.append((r, op, x, y))
+    return out
+
+
 def run_program_routes(ctx, n):
-    cases = [gen_program_case(ctx.rng) for _ in range(n)]
+    cases = fixed_program_cases() + [gen_program_case(ctx.rng) for _ in range(n)]
     reqs = [{"id": "c06p%d" % i, "src": program(i, *c), "timeout_ms": 10000} for i, c in enumerate(cases)]
     answers = vlib.run_programs(reqs)
     ok = True
@@ -424,7 +449,7 @@ def run_program_routes(ctx, n):
             reported += 1
             ctx.violation("property-fails", {"program": rq["src"], "route": c[0], "op": c[1], "a": str(c[2]), "b": str(c[3])},
                           verdict)
-    ctx.obligation("Elk programs (folded/typed/generic routes) agree with Python integers on %d programs" % n, ok,
+    ctx.obligation("Elk programs (folded/typed/generic routes) agree with Python integers on %d programs" % len(cases), ok,
                    "correspondence")
 
 
@@ -435,6 +460,29 @@ def replay_program(ctx, inp):
     if verdict not in (None, "SKIP"):
         ctx.violation("property-fails", inp, verdict)
     ctx.case(("prog", inp["program"]))
+
+
+GRID = [0, 1, -1, 2, -2, I64MAX, I64MIN, I64MAX + 1, I64MIN - 1, 1 << 64, -(1 << 64)]
+
+
+def grid_lines():
+    """deterministic: every operator x both families x all pairs of the identity/boundary grid (in normal form)"""
+    out = []
+    nrep = lambda v: ("s%d" if fits(v) else "b%d") % v
+    for fam in ("val", "ints"):
+        for op in BIN_OPS:
+            ys = GRID
+            if op in ("shl", "shr"):
+                ys = [0, 1, -1, 2, 62, 63, 64, 65, -62, -63, -64, -65, 127, -128]
+            elif op == "pow":
+                ys = [0, 1, 2, 3, 62, 63, 64, 65]
+            for x in GRID:
+                for y in ys:
+                    out.append("int\t%s\t%s\t%s\t%s" % (fam, op, nrep(x), nrep(y)))
+        for op in (INTS_UN if fam == "ints" else UN_OPS):
+            for x in GRID:
+                out.append("int\t%s\t%s\t%s\t-" % (fam, op, nrep(x)))
+    return out
 
 
 def all_pairs_lines(rng, per_op):
@@ -465,7 +513,7 @@ def run(ctx):
             return
         lines = [inp["line"]]
     else:
-        lines = vlib.corpus_lines("C06") + [gen_line(ctx.rng) for _ in range(ctx.n(12000, 300000))]
+        lines = vlib.corpus_lines("C06") + grid_lines() + [gen_line(ctx.rng) for _ in range(ctx.n(12000, 300000))]
         if not ctx.quick:
             lines += all_pairs_lines(ctx.rng, 20000)
     for ln in lines:
